@@ -30,8 +30,8 @@ type (
 	avInt     struct{ n int }       // known small integer
 	avConst   struct{ s string }    // named constant (compared by name)
 	avChan    struct{ id int }      // channel
-	avTick    struct{}              // timer channel
-	avTicker  struct{}              // *time.Ticker / *time.Timer
+	avTick    struct{ src string }  // timer channel (src: how the timer came about)
+	avTicker  struct{ src string }  // *time.Ticker / *time.Timer
 	avCtx     struct{ k int }       // context; k < 0: context.Background()
 	avCancel  struct{ k int }       // cancel function of context k
 	avWg      struct{ id int }      // *sync.WaitGroup
